@@ -301,12 +301,13 @@ example : toApp (VelocityApprover.approve_keysend (Clock := Nat) (A := Bool) (Pa
 
 /-- **C12_fn_approve_onchain**: on-chain spends go to the delegate alone — the approver's control is neither consulted nor
     changed (the statement of C12 is about the node's fee control for L1, not this one); `set_control` replaces the control
-    as a whole (`control()`, its getter, is named like the field: not emitted by the translator). -/
+    as a whole; `control()` (emitted as `control_fn`: it is named like the field) returns it. -/
 theorem C12_fn_approve_onchain (dlg : A → Transaction → List TxOut → List Nat → Bool) (tx : Transaction) (po : List TxOut)
     (ui : List Nat) (c : FnApprover.VelocityControl) :
     VelocityApprover.approve_onchain dlg self tx po ui = dlg self.delegate tx po ui ∧
+    VelocityApprover.control_fn self = self.control ∧
     (VelocityApprover.set_control self c).control = c ∧ (VelocityApprover.set_control self c).delegate = self.delegate :=
-  ⟨rfl, rfl, rfl⟩
+  ⟨rfl, rfl, rfl, rfl⟩
 
 end Approver
 
